@@ -39,7 +39,7 @@ def lk(prop, rule, quick=30, thorough=600):
     return dict(stages=[dict(bin="world", world="lookupd", prop=prop, share=1.0)], quick_s=quick, thorough_s=thorough, level="exploration",
                 rule=rule, components=dict(real=REAL_L, stub=STUB_Q + ["raw V1 producer connections"]), assumptions=ASSUME, crash_property="C15")
 
-PLANS["C14"] = lk("C14", "each evaluation is one seeded run of the lookupd world: 1-4 producer connections (IDENTIFY/REGISTER/UNREGISTER/PING/close/reset), HTTP admin calls, clock advances across inactivity and tombstone thresholds; after every step /lookup, /topics, /channels, /nodes are compared with a plain registry model; distinct = distinct schedule fingerprint; non-trivial = at least 5 operations with reads checked")
+PLANS["C14"] = lk("C14", "each evaluation is one seeded run of the lookupd world, of three kinds. (1) ENUMERATED: every second seed is one history of the exhaustive enumeration of all sequential histories of length 3 (quick tier; 22^3 x 4 = 42592 histories, mirror images under swapping the two producers skipped) or 4 (thorough tier; 937024) over the alphabet {REGISTER t, REGISTER t c, UNREGISTER t, UNREGISTER t c, close, reconnect+IDENTIFY, PING} x 2 producers + {create/delete topic, create/delete channel, tombstone producer 0/1, advance past the tombstone lifetime, advance past the inactivity timeout}, in the four durable/ephemeral variants of the topic and channel name; probes enumerated_histories_len3/len4 count how many were run. (2) RANDOM sequential histories: 1-4 producer connections (IDENTIFY/REGISTER/UNREGISTER/PING/close/reset, optionally two connections advertising the same address), HTTP admin calls, clock advances across inactivity and tombstone thresholds; after every step /lookup, /topics, /channels, /nodes must equal a plain registry model. (3) CONCURRENT bursts: up to five commands (several producers on the same topic, disconnects, admin create/delete/tombstone) are issued before the daemon runs any of them and interleaved by the seeded scheduler; the reference executes each command as its sequence of key-level atomic updates, explores ALL interleavings that respect per-connection order, and the reads after the burst (and the burst's own HTTP status codes) must equal the outcome of at least one interleaving; distinct = distinct schedule fingerprint; non-trivial = at least 5 operations with reads checked", quick=40, thorough=900)
 PLANS["C15"] = lk("C15", "each evaluation is one seeded run of the lookupd world with hostile TCP byte streams (wrong magic, every IDENTIFY length incl. negative/huge, malformed JSON, commands before IDENTIFY, bad names, garbage) and hostile HTTP requests (route x method x argument combinations) interleaved with well-behaved bystander producers whose registrations are re-read after every step; distinct = distinct schedule fingerprint")
 
 def pr(prop, rule, crash, quick=30, thorough=600):
@@ -116,7 +116,7 @@ MANIFEST_TEXT = {
  "C13": mt("seeded search with /stats snapshots (JSON, text, filters) at quiescent points; oracle: conservation law per channel against the ledger, topic counters vs. acknowledged publishes, per-consumer counts, no negative count, renderings agree.", "DESIGN.md 3 C13", "deterministic simulation: conservation laws vs. ledger"),
 }
 
-MANIFEST_TEXT["C14"] = mt("seeded search over producer/admin histories and clock advances against the real nsqlookupd; oracle: after every step every read endpoint equals a plain registry model (producers = connected, recently pinged, registered, not tombstoned); concurrent bursts use commuting operations so the expected state is unambiguous.", "DESIGN.md 3 C14", "deterministic simulation: refinement of a registry model")
+MANIFEST_TEXT["C14"] = mt("seeded search over producer/admin histories and clock advances against the real nsqlookupd; oracle: after every step every read endpoint equals a plain registry model (producers = connected, recently pinged, registered, not tombstoned); sequential histories up to length 3 (quick) / 4 (thorough) over a 22-symbol alphabet are enumerated exhaustively; concurrent bursts of non-commuting commands are checked against all interleavings of a key-level non-deterministic reference (refinement).", "DESIGN.md 3 C14 and 7.9", "deterministic simulation: refinement of a registry model (exhaustive short histories + all-interleavings reference for concurrent bursts)")
 MANIFEST_TEXT["C15"] = mt("seeded search over hostile TCP byte streams and HTTP requests against the real nsqlookupd with bystander producers; oracle: process stays up (a panic is attributed through the write-ahead seed log), keeps answering, bystander registrations intact, documented error codes, no HTTP 5xx.", "DESIGN.md 3 C15", "deterministic simulation: hostile-input robustness with bystander oracle")
 
 MANIFEST_TEXT["C09"] = mt("seeded search over generated V2 command streams, connection states and boundary values against the real nsqd with a bystander; oracle: executable reference of the documented protocol (code, fatality, closure per command and state) plus side-effect check through /stats (rejected PUB/DPUB enqueue nothing, MPUB all-or-nothing) and bystander round trips. Largely input-driven; the simulator adds short reads, resets at arbitrary points, the fake clock and replay.", "DESIGN.md 3 C09", "deterministic simulation: protocol reference table + side-effect oracle")
